@@ -106,8 +106,8 @@ def corr_C11(ctx):
         for _ in range(rng.randrange(1, 7)):
             x = rng.randrange(4096)
             e = rng.choice(PAT3 + pat4()[:200])
-            k = rng.choice(["call errors %d", "call decode %d", "call encode %d", "call encode_s %d", "obs"])
-            ops.append(k % (g[x] ^ e) if "%d" in k else k)
+            k = rng.choice(["call errors %d", "call decode %d", "call decode %s", "call encode %d", "call encode_s %d", "obs"])
+            ops.append(k % (g[x] ^ e) if "%d" in k else k % hexb((g[x] ^ e).to_bytes(3, "big")) if "%s" in k else k)
         lines.append(gen.H("Golay", ops + ["obs"]))
     for c, n in ((0, 24), (1, 24), (0xFFFFFF, 24), (0x800101, 3), (0x800101, 0), (0x1FFFFFF, 24), (5, 1)):
         lines.append(gen.H("Golay", ["call onesincode %d %d" % (c, n)]))
@@ -156,6 +156,18 @@ def check_golay_pattern(args):
             return "Golay._errors(encode(%#x) ^ %#08x) = %d for a 4-bit error (must be 4)" % (x, e, n)
     return None
 
+def check_golay_fresh(args):
+    """the very first use of a new Golay object is a decode through the entry named (int or 3-byte string):
+    the tables are built lazily, and a <= 3-bit error must be corrected on that first call too"""
+    x, e, entry = args["x"], args["e"], args["entry"]
+    v = ref_encode(x) ^ e
+    g = golay.Golay()
+    d = g.decode(v.to_bytes(3, "big") if entry == "bytes" else v)
+    if wt(e) <= 3 and d != x:
+        return "a new Golay object: decode(%s of encode(%#x) ^ %#08x) = %#x (weight-%d error not corrected on first use)" % (
+            entry, x, e, d, wt(e))
+    return None
+
 def oracles_C11(ctx, hints):
     rng = ctx.rng
     fails = []
@@ -177,6 +189,17 @@ def oracles_C11(ctx, hints):
     for x in range(4096):                                    # exhaustive, every run
         n += 1
         if run("golay_word", check_golay_word, {"x": x}, {"class": "Golay", "check": "codeword"}):
+            break
+    for i in range(ctx.scale(40, 400)):                       # first use of a new object, both entries
+        n += 1
+        x = rng.randrange(4096)
+        e = rng.choice(PAT3[1:])
+        if e >> 12 == 0:                                     # make sure a data bit is hit most of the time
+            e |= 1 << rng.randrange(12, 24)
+            if wt(e) > 3:
+                e = 1 << rng.randrange(12, 24)
+        if run("golay_fresh", check_golay_fresh, {"x": x, "e": e, "entry": "bytes" if i % 2 == 0 else "int"},
+               {"class": "Golay", "check": "corrects"}):
             break
     big = getattr(ctx, "search_mode", False) or ctx.tier == "thorough"
     vals = [0, 1, 0x800, 0xFFF, 0x555, 0xAAA, 0x001, 0x7FF] + [rng.randrange(4096) for _ in range(ctx.scale(8, 64))]
@@ -549,11 +572,19 @@ def seq_text(seq):
 
 def simulate(seq, L):
     """frame-fill simulation, independent of the library.
-    Returns (order, nframes, overflow): `order` = for every frame index the PTDP-level records
-    (frame_of_last_byte, kind, packet index, fragment index) in the order a decapsulator must return
-    them; nframes = frames emitted; overflow = some low-latency insertion did not fit."""
+    Returns (llps, normal, nframes, overflow, kind): llps = per frame the low-latency PTDPs inserted into it,
+    normal = (frame of last byte, packet index, fragment index, fragments) per normal PTDP, nframes = frames
+    emitted, overflow = some low-latency insertion did not fit the free space of its frame, kind = how:
+      'none'   no insertion overflows;
+      'tail'   every overflowing insertion pushes out only continuation bytes of the normal PTDP in progress (no
+               PTDP header starts in the bytes pushed into the next frame, the low-latency block itself fits a
+               frame, nothing of an earlier low-latency block is pushed out).  The library handles these: the
+               low-latency PTDP stays in the frame, the PTDP in progress completes one frame later;
+      'header' some overflowing insertion pushes out a PTDP header start / low-latency bytes (known finding K3);
+               from then on the accounting below is only a byte count."""
     fi, fill = 0, 0
-    overflow = False
+    norm_start, h_last = 0, -1     # start of the normal region of the frame; last PTDP header START in it
+    overflow, kind = False, "none"
     llps = {}          # frame -> [(pkt index)] in insertion order
     normal = []        # (frame of last byte, pkt index, fragment index, nfrags)
     for idx, (b, llp) in enumerate(seq):
@@ -561,24 +592,46 @@ def simulate(seq, L):
         sizes = [n + 6] if n <= 2048 else [min(2048, n - 2048 * i) + 6 for i in range((n + 2047) // 2048)]
         for fidx, s in enumerate(sizes):
             if llp:
-                if s + 1 > L - fill:
+                blk = s + 1
+                if blk > L - fill:
                     overflow = True
-                    # the library pushes the tail out; keep the byte count right
-                    fill += s + 1
-                    while fill > L:
-                        fill -= L
+                    cut = L - blk                      # existing positions >= cut are pushed into the next frame
+                    if kind != "header" and blk <= L and cut >= norm_start and cut > h_last and normal and normal[-1][0] == fi:
+                        kind = "tail"
+                        llps.setdefault(fi, []).append((idx, fidx, len(sizes)))
+                        normal[-1] = (fi + 1,) + normal[-1][1:]
                         fi += 1
-                    llps.setdefault(fi, []).append((idx, fidx, len(sizes)))
+                        fill, norm_start, h_last = fill - cut, 0, -1
+                    else:
+                        kind = "header"
+                        # the library pushes the tail out; keep the byte count right
+                        fill += blk
+                        while fill > L:
+                            fill -= L
+                            fi += 1
+                        norm_start, h_last = 0, -1
+                        llps.setdefault(fi, []).append((idx, fidx, len(sizes)))
                 else:
-                    fill += s + 1
+                    fill += blk
+                    norm_start += blk
+                    if h_last >= 0:
+                        h_last += blk
                     llps.setdefault(fi, []).append((idx, fidx, len(sizes)))
             else:
+                if fill == L:                          # the open frame is full: this PTDP starts the next one
+                    fi += 1
+                    fill, norm_start = 0, 0
+                h_last = fill
                 fill += s
                 while fill > L:
                     fill -= L
                     fi += 1
+                    norm_start, h_last = 0, -1
                 normal.append((fi, idx, fidx, len(sizes)))
-    return llps, normal, fi, overflow
+    return llps, normal, fi, overflow, kind
+
+def overflow_kind(seq, L):
+    return simulate(seq, L)[4]
 
 def features(seq, L):
     """which of the alignments named by C10 a sequence exercises (for the evidence file)"""
@@ -640,7 +693,8 @@ def features(seq, L):
 def expected_packets(seq, L):
     """what a correct decapsulator returns for the frames emitted: per frame, the low-latency packets
     inserted into it (any order among themselves), then the normal packets whose last byte lies in it"""
-    llps, normal, nframes, overflow = simulate(seq, L)
+    llps, normal, nframes, overflow, kind = simulate(seq, L)
+    overflow = kind == "header"                # 'tail' overflows are accounted exactly
     done_normal = []
     for (f, idx, fidx, nf) in normal:
         if fidx == nf - 1 and f < nframes:
@@ -888,7 +942,8 @@ def _stream_oracles(ctx, hints):
     budget = ctx.scale(900, 20000) * (3 if getattr(ctx, "search_mode", False) else 1)
     for (L, mode, seq) in _c10_sequences(ctx, budget):
         args = {"L": L, "sid": 1, "pkts": [[b.hex(), l] for b, l in seq]}
-        overflow = simulate(seq, L)[3]
+        overflow = simulate(seq, L)[4] == "header"
+        ctx.count("c10_overflow_" + simulate(seq, L)[4])
         for ft in features(seq, L):
             ctx.count("c10_" + ft)
         ctx.count("c10_sequences_" + ("llp" if any(l for _, l in seq) else "normal"))
@@ -1195,7 +1250,7 @@ def corr_C13(ctx):
     return lines
 
 ORACLES = {
-    "golay_word": check_golay_word, "golay_pattern": check_golay_pattern,
+    "golay_word": check_golay_word, "golay_pattern": check_golay_pattern, "golay_fresh": check_golay_fresh,
     "ptdp_robust": check_ptdp_robust, "ptfr_robust": check_ptfr_robust,
     "ch7_encap": check_encap, "ch7_decap": check_decap, "ch7_nollp": check_nollp,
     "ptdp_accept": check_ptdp_accept, "golay_bytes": check_golay_bytes, "ptfr_accept": check_ptfr_accept,
